@@ -408,7 +408,7 @@ def Act.plainField : Act → Option Nat
 def Act.pty : Act → PTy
   | .conv ty _ => .scalar ty | .string _ => .string | .colour _ _ => .colour
   | .lattr _ _ lo hi _ => .ranged lo hi | .axisPos _ => .firstChar | .linePos _ => .scalar 'f'
-  | .fpoint _ lo hi _ => .point lo hi | .intervals _ _ _ => .countOrLog | .align _ => .alignFlags
+  | .fpoint _ lo hi _ => .point lo hi | .intervals _ _ _ _ => .countOrLog | .align _ => .alignFlags
   | .clip _ => .clipAxes
 
 /-- what a handler stores for blank text -/
@@ -640,13 +640,13 @@ def Act.nullOK (k : Kind) : Act → Bool
   | .axisPos _ => true
   | .linePos f => k.dflt f == .flt ⟨0, 0⟩
   | .fpoint _ _ _ _ => true
-  | .intervals f g bit => (255 - bit) &&& bit == 0 && f != g
+  | .intervals f g bit cn => (255 - bit) &&& bit == 0 && f != g && cn
   | .align _ => true
   | .clip _ => true
 
 /-- members that hold their default after the "no source" branch (all written ones but a flags byte) -/
 def Act.resetFields : Act → List Nat
-  | .intervals f _ _ => [f]
+  | .intervals f _ _ _ => [f]
   | a => a.touched
 
 theorem hasBit_clearBit (x : Int) (bit : Nat) (h : (255 - bit) &&& bit = 0) : hasBit (clearBit x bit) bit = false := by
@@ -683,10 +683,10 @@ theorem Act.null_resets (k : Kind) (tab : List NamedColor) (a : Act) (hn : a.nul
     refine ⟨trivial, ?_, ?_⟩
     · rw [Obj.get_put_ne _ _ _ _ (by omega), Obj.get_put _ _ _ hw.1]
     · rw [Obj.get_put _ _ _ (by rw [Obj.put_length]; exact hw.2)]
-  case intervals f g bit =>
+  case intervals f g bit cn =>
     refine ⟨trivial, ?_⟩
     simp only [Bool.and_eq_true, beq_iff_eq, bne_iff_ne, ne_eq] at hn
-    rw [Obj.get_put_ne _ _ _ _ hn.2, Obj.get_put _ _ _ hw.1]
+    rw [Obj.get_put_ne _ _ _ _ hn.1.2, Obj.get_put _ _ _ hw.1]
   case align f => exact ⟨trivial, Obj.get_put _ _ _ hw⟩
   case clip f => exact ⟨trivial, Obj.get_put _ _ _ hw⟩
 
